@@ -100,10 +100,24 @@ def check_spatial(case, out):
 
     model, cands, N, seed = case["model"], case["cands"], case["N"], case["seed"]
     out.label(f"model={model}")
+    normal_calls = []
     with R.owned(seed) as _:
         try:
             if model == "OneDimSpatial":
-                res = bg.OneDimSpatial(candidates=cands).generate_profile(N)
+                # OneDimSpatial returns no positions; its draws are observed through a recorder
+                # around numpy's normal sampler (used only if the call pattern is the documented one)
+                orig_normal = np.random.normal
+
+                def rec_normal(*a, **k):
+                    v = orig_normal(*a, **k)
+                    normal_calls.append(v)
+                    return v
+
+                np.random.normal = rec_normal
+                try:
+                    res = bg.OneDimSpatial(candidates=cands).generate_profile(N)
+                finally:
+                    np.random.normal = orig_normal
             elif model == "Spatial":
                 d = case["dim"]
                 vk = {"low": 0.0, "high": 1.0, "size": d} if case["vdist"] == "uniform" else {"loc": 0.5, "scale": 0.4, "size": d}
@@ -129,6 +143,22 @@ def check_spatial(case, out):
             out.fail("spatial", "incomplete_ranking", f"{rankings[:3]}")
         elif len(cands) <= 5 and not single_peaked_axis_exists(rankings, cands):
             out.fail("spatial", "not_single_peaked", f"no common axis for {rankings}")
+        n = len(cands)
+        scal = [v for v in normal_calls if np.ndim(v) == 0]
+        arrs = [v for v in normal_calls if np.ndim(v) == 1]
+        if len(normal_calls) == n + 1 and len(scal) == n and len(arrs) == 1 and len(arrs[0]) == N and np.ndim(normal_calls[-1]) == 1:
+            cpos = dict(zip(cands, [float(x) for x in scal]))
+            want = {}
+            for vp in arrs[0]:
+                key = tuple(sorted(cands, key=lambda c: abs(cpos[c] - float(vp))))
+                want[key] = want.get(key, 0) + 1
+            got = {}
+            for b in prof.ballots:
+                key = tuple(str(next(iter(s))) for s in b.ranking)
+                got[key] = got.get(key, 0) + int(b.weight)
+            if got != want:
+                out.fail("spatial", "ranking_not_by_distance", f"OneDimSpatial: profile {got} but the sampled positions give {want}")
+            out.label("onedim_positions_observed")
         out.nontrivial = len(cands) >= 3 and len(set(rankings)) >= 2
         return
     prof, cpos, vpos = res
@@ -451,6 +481,18 @@ def gen_law_specs(seed, tier):
         iv = {b: {b: skew(slates[b]), **{o: skew(slates[o]) for o in blocs if o != b}} for b in blocs}
         return {"slates": slates, "prop": props, "cohesion": coh, "intervals": iv}
 
+    def three_bloc_params(rnd_):
+        blocs = ["W", "C", "H"]
+        slates = {"W": ["W1", "W2"], "C": ["C1"], "H": ["H1"]}
+        vec = [Fraction(6, 10), Fraction(3, 10), Fraction(1, 10)]
+        coh = {}
+        for b in blocs:
+            v = vec[:]
+            rnd_.shuffle(v)
+            coh[b] = {b2: C.enc(x) for b2, x in zip(blocs, v)}
+        iv = {b: {b2: skew(slates[b2]) for b2 in [b] + [x for x in blocs if x != b]} for b in blocs}
+        return {"slates": slates, "prop": {"W": "1/2", "C": "1/4", "H": "1/4"}, "cohesion": coh, "intervals": iv}
+
     coh_choices = [Fraction(7, 10), Fraction(1, 4), Fraction(3, 5), Fraction(1, 3), Fraction(9, 10)]
     for model in LAW_MODELS:
         for k in range(per):
@@ -474,6 +516,8 @@ def gen_law_specs(seed, tier):
             else:
                 nb, sizes = 2, rnd.choice([[2, 2], [3, 1], [2, 1]])
             p = mk_params(nb, sizes, cohs)
+            if model == "slate_PlackettLuce" and k % 2 == 1:
+                p = three_bloc_params(rnd)
             extra = {}
             if model == "short_name_PlackettLuce":
                 extra["ballot_length"] = rnd.choice([1, 2])
@@ -481,7 +525,7 @@ def gen_law_specs(seed, tier):
                 extra["num_votes"] = rnd.choice([2, 3])
             if model == "CambridgeSampler" and C.frac(p["prop"]["W"]) < Fraction(1, 2):
                 p["prop"]["W"], p["prop"]["C"] = p["prop"]["C"], p["prop"]["W"]
-            n_here = 200000 if model.endswith("MCMC") else N
+            n_here = (120000 if tier == "quick" else 200000) if model.endswith("MCMC") else N
             specs.append((model, p, n_here, sd, extra))
     return specs
 
